@@ -44,6 +44,8 @@ ASSUMPTIONS = [
     "at all (it raises AttributeError on the ABC mix-in's _abc_impl at class definition), "
     "so no rewritten class exists to be checked for those two",
 ]
+# a share of every batch runs under python -O (asserts stripped)
+BATCHES = [{"share": 0.85}, {"share": 0.15, "pyflags": ["-O"], "tier_suffix": "-O"}]
 EXPECTED_PROBES = ["cache_hit_calls", "post_fault_hit_calls", "opt_classes_defined",
                    "fresh_rebuild_keys", "toplevel_typed_constants", "exception_calls"]
 
@@ -599,6 +601,7 @@ def execute(scenario, open_sigs):
     events, known, probes, faults, states = [], [], {}, {}, set()
     insts = {}
     optclasses = {}
+    pool_memo = {}
     violation = None
     steps = 0
     nontrivial = False
@@ -760,6 +763,7 @@ def execute(scenario, open_sigs):
                     sys.setprofile(None)
                 o = B.define(op[1], op[2])
                 canon(o, obs.memo)
+                pool_memo.update(obs.memo)
                 if obs_active:
                     sys.setprofile(obs._prof)
                 continue
@@ -1001,6 +1005,14 @@ def execute(scenario, open_sigs):
                     probe("post_fault_hit_calls")
             events.append(["call", opi, ins["inst"], got[0],
                            _sha(outcome_repr(got)), nkeys, len(comps)])
+            # let temporaries die the way they do in real use: the simulator keeps no
+            # reference to anything but the pool, so addresses of dead expressions are recycled
+            obs.release_frames(0)
+            obs.log.clear()
+            obs._keep[:] = [x.obj for x in insts.values() if not isinstance(x.obj, Exception)]
+            obs.memo = dict(pool_memo)
+            e = a = kw = got = want = fresh_obj = mgot = comps = cpt = fresh_keys = None
+            fresh_walk = new_walk = None
             if prof_was:
                 sys.setprofile(obs._prof)
     finally:
